@@ -806,6 +806,10 @@ def _all_failures(case):
             if kind == 'append':
                 node['items'].append({'t': 'int', 'v': '12345'})
                 obj.append(12345)
+            elif kind == 'flip':
+                bb = node['c']['bits']
+                node['c']['bits'] = ('1' if bb[0] == '0' else '0') + bb[1:]
+                obj.bits[0] = not obj.bits[0]
             else:
                 node['c']['bits'] += '1'
                 obj.store_bit(1)
@@ -861,7 +865,10 @@ def _find_mutation(specs):
             for i, x in enumerate(v['items']):
                 walk(x, path + [i], depth + 1)
         elif v['t'] == 'builder' and depth >= 1 and best[0] is None and len(v['c']['bits']) < 900:
-            best[0] = (path, 'store')
+            # 'store' appends a bit; 'flip' edits the builder's public bit string at EQUAL size (item assignment)
+            best[0] = (path, 'flip' if len(v['c']['bits']) % 2 else 'store')
+        elif v['t'] == 'builder' and depth == 0 and best[1] is None and len(v['c']['bits']) % 2:
+            best[1] = (path, 'flip')
 
     for i, v in enumerate(specs):
         walk(v, [i], 0)
